@@ -272,6 +272,14 @@ func (f *Flow) complete() bool {
 // both controllers tick), until the flow is complete or nothing helps.
 func (f *Flow) drain(stats *replayStats) (bool, error) {
 	maxRounds := 12 + 4*f.n
+	// fairness of the work-pulling model: a worker that is going to join does join
+	for _, name := range f.order {
+		if c := f.cons[name]; f.kind == "wp" && c.ep == nil {
+			if _, err := f.exec(Step{A: "Join", W: name}); err != nil {
+				return false, err
+			}
+		}
+	}
 	for round := 0; round < maxRounds; round++ {
 		for guard := 0; ; guard++ {
 			if guard > 20000 {
